@@ -4,6 +4,9 @@ check():  (1) Print Assumptions of the theorems in Properties/C09.v (over R: std
           (2) slices of pbl_model.py / ffm_kormann_meixner.py re-extracted -> Gen/GenPbl.v, bridge lemmas
               re-proved (Bridge/PblBridge.v), plus the fail-closed structure check of the statements that are
               not scalar formulas (harness/pblslices.py);
+          (2b) the WHOLE bodies of vertical_profiles / psi / phi re-translated (harness/py2coq_pbl.py) -> Gen/GenPblFun.v, and
+              Bridge/PblFunBridge.v re-proved: interpreted description = Model/Pbl.v for ALL arguments (control structure,
+              defaults, raises, grid, aliasing); compiled in a worker thread while (3) runs;
           (3) INTERVAL-CERTIFIED correspondence: vertical_profiles / psi / phi / _psiM / _phiM / _phiC are run
               on generated binary64 inputs; for every case a Coq lemma is emitted and proved (kernel-checked,
               Qed) stating, on the EXACT rationals of the inputs,
@@ -33,6 +36,8 @@ from fractions import Fraction
 
 import core
 import pblslices
+import py2coq
+import py2coq_pbl
 
 THEOREMS = [
     "C09_wind_at_zm", "C09_direction", "C09_direction_orientation", "C09_direction_refuted_unstable",
@@ -42,6 +47,7 @@ THEOREMS = [
 ]
 TRUSTED = [
     "Model/Pbl.v is hand-written over Coq's reals; every scalar formula of it is re-proved equal to the formula re-extracted from the current pbl_model.py / ffm_kormann_meixner.py (39 bridge lemmas, one per slice), the non-scalar statements (np.arange, aliasing Kx = Ky = Kz = K, branch structure, the interface's call n=dom.nz, meas_height=tower.z_m, default level dom.nz) by a fail-closed comparison of their unparsed AST, and the whole function by interval-certified correspondence of its outputs",
+    "function-level tie: harness/py2coq_pbl.py translates the WHOLE current bodies of vertical_profiles, psi, phi (fail closed outside its fragment) into the deep embedding of Model/PblDesc.v; Bridge/PblFunBridge.v proves for ALL arguments (any closure string, any combination of given/omitted ustar, z0, mol, prsc, closure, domain_height, stretch, z0_min, z0_max, tke, any n, any wind) that the interpreted description raises exactly when Model/Pbl.make_env is None (with the exception the code raises: ValueError for an unknown closure or both z0 and ustar given, TypeError for a missing one, ZeroDivisionError for n = 0, IndexError for an empty grid) and otherwise returns (z, (u, v, Kx, Ky, Kz)) with e_nnodes entries equal to the model's node functions at every index, Kx, Ky, Kz being one array object except for MOSTM. Trusted there: the interpreter's reading of numpy (elementwise ufuncs and broadcasting of a number against a 1-d array, np.where as if-then-else, np.ones(len(z)), np.squeeze(x).item() and np.array(x)[..., np.newaxis] of a number as that number, logger calls evaluate their arguments and do nothing else, max/min/z[0] raise on an empty array), exact total real arithmetic (no ZeroDivisionError for a Python-float divisor such as mol = 0.0, no overflow/NaN), arguments being numbers (not arrays / explicit None for mol, prsc)",
     "numpy's arange is modelled as: length = exact ceiling of the REAL quotient (zetamx+dzeta)/dzeta, element i = i*dzeta; numpy evaluates the quotient in binary64 (cases within 1e-6 of an integer are not generated)",
     "np.power(b, e, dtype=complex).real with b > 0 and b ** e are modelled by Rpower; np.where by if-then-else on Rlt_dec (np.nan of the unselected branch is never used: bridge lemma)",
     "Coq Interval library (interval, interval_intro) — its proofs are re-checked by the kernel at Qed; they use primitive 63-bit integers / floats of the Coq kernel",
@@ -58,6 +64,59 @@ ASSUMPTIONS = [
 
 _IMPL = None
 JOBS = 12
+
+
+# ---------------------------------------------------------------------------------------------
+# tie (B) at function level: whole bodies of vertical_profiles / psi / phi -> Gen/GenPblFun.v -> Bridge/PblFunBridge.v
+
+
+class _Recorder:
+    """stands in for ctx inside the worker thread: compiles through ctx, keeps the obligations for the main thread"""
+
+    def __init__(self, ctx):
+        self.ctx, self.build, self.obligations = ctx, ctx.build, []
+
+    def write(self, name, text):
+        return self.ctx.write(name, text)
+
+    def coqc(self, path, timeout=300, extra_q=()):
+        return self.ctx.coqc(path, timeout=min(timeout, 240), extra_q=extra_q)
+
+    def obligation(self, name, ok, detail=""):
+        self.obligations.append((name, ok, detail))
+
+
+def function_bridge_start(ctx):
+    """translate now (fail closed), compile generated file + bridge in a worker thread while the certified
+    correspondence runs; function_bridge_finish registers the obligations"""
+    rec = _Recorder(ctx)
+    try:
+        text, stats = py2coq_pbl.translate(os.path.join(core.SRC, "bldfm", "pbl_model.py"))
+    except py2coq.TranslateError as e:
+        rec.obligation("gen:GenPblFun.v", False, "whole-function translator failed closed: %s" % e)
+        return rec, None, None
+    except Exception as e:  # fail closed
+        rec.obligation("gen:GenPblFun.v", False, "whole-function translator crashed: %r" % (e,))
+        return rec, None, None
+    ex = ThreadPoolExecutor(max_workers=1)
+    fut = ex.submit(core.run_bridge, rec, {"GenPblFun.v": text}, ["PblFunBridge.v"])
+    ex.shutdown(wait=False)
+    return rec, fut, stats
+
+
+def function_bridge_finish(ctx, handle):
+    rec, fut, stats = handle
+    ok = False
+    if fut is not None:
+        try:
+            ok = bool(fut.result())
+        except Exception as e:  # fail closed
+            rec.obligation("bridge:bridge_fun_vertical_profiles", False, "bridge compilation crashed: %r" % (e,))
+    for name, good, detail in rec.obligations:
+        ctx.obligation(name, good, detail)
+    if stats:
+        ctx.cov["function_level_tie"] = dict(stats, functions=["vertical_profiles", "psi", "phi"], bridged=ok)
+    return ok
 
 
 def impl():
@@ -397,6 +456,7 @@ def check(ctx):
     # (as for Properties/C19Num.v); Print Assumptions of every theorem is still compared with the allow-list on every run.
     core.check_properties_file(ctx, "Properties/C09.v", THEOREMS, core.AX_REALS, coqchk=False)
     pblslices.run(ctx)
+    fb = function_bridge_start(ctx)
     np, pm, km = impl()
     cases = gen_cases(ctx)
     res, lem = certify_cases(ctx, cases, "c09case")
@@ -432,6 +492,7 @@ def check(ctx):
     pbad = certify_points(ctx, items)
     for it, why in pbad[:12]:
         ctx.fail("correspondence", "C09:point-%s" % it[0], "%s: %s" % (why, it[2][:300]), hint={"point": it[3]})
+    function_bridge_finish(ctx, fb)
     hist = {}
     for c in cases:
         key = "%s/%s/%s" % (c["closure"], "ustar" if c.get("ustar") is not None else "z0",
